@@ -573,6 +573,9 @@ func TestReplayCase(t *testing.T) {
 	if c.Target == "" && bytes.Contains(b, []byte(`"answers"`)) {
 		t.Skip("a download script, not a Case: see TestReplayDownload")
 	}
+	if c.Target == "" && bytes.Contains(b, []byte(`"conv"`)) {
+		t.Skip("a sync conversation script, not a Case: see TestReplayConversation")
+	}
 	c.fromOK = c.NMut > 0
 	r := exec(t, c, false)
 	t.Logf("replayed %s: class=%s panicked=%v known=%v", c.Target, r.out.class, r.panicked, r.known)
